@@ -2790,7 +2790,9 @@ class Entity(MutableMapping[str, str]):
         - _is_worldspawn is used interally to generate the special worldspawn block.
         """
 
-        if self.hidden:
+        # The world block cannot be hidden, the parser only looks for it at the top level.
+        hidden = self.hidden and not _is_worldspawn
+        if hidden:
             buffer.write(f'{ind}hidden\n{ind}{{\n')
             ind += '\t'
 
@@ -2846,7 +2848,7 @@ class Entity(MutableMapping[str, str]):
         buffer.write(ind + '\t}\n')
 
         buffer.write(ind + '}\n')
-        if self.hidden:
+        if hidden:
             buffer.write(ind[:-1] + '}\n')
 
     def sides(self) -> Iterable['Side']:
